@@ -42,6 +42,8 @@ def histories(tier, rng):
         sids = gens.STORY_IDS[:rng.randrange(1, 4)]
         ro_doc = gens.make_ro(sids, layout=rng.choice(gens.RO_LAYOUTS), timing=rng.choice(gens.TIMINGS))
         ro_doc.find('roCreate').find('roSlug') is not None and setattr(ro_doc.find('roCreate').find('roSlug'), 'text', rng.choice(SPECIAL) or 'Slug')
+        if rng.random() < 0.4:
+            gens.whitespace_mix(rng, ro_doc)
         ro = with_refs(rng, gens.vary_envelope(rng, to_text(ro_doc)))
         state = ro
         msgs = []
@@ -76,6 +78,8 @@ def histories(tier, rng):
                     d[3].remove(d[3].find('roID'))
             else:
                 d = gens.make_ro(['X'], message_id=20 + j)
+            if rng.random() < 0.4:
+                gens.whitespace_mix(rng, d)
             t = with_refs(rng, gens.vary_envelope(rng, with_cr(to_text(d))))
             if rng.random() < 0.1:
                 t = gens.mutate_doc(rng, t, state, n=1)
